@@ -205,6 +205,21 @@ func runFaultCase(c faultCase) *Violation {
 			if off > 0 && off < size-zap.FooterSize {
 				faultStats.body++
 			}
+			if c.Op == "writeto" && (off%7 == 0 || off < 64 || off > size-64) {
+				// a destination that fails ONE write (a short write with an error that calls itself
+				// temporary, or a plain I/O error) and then works again: an error may be reported,
+				// but success is only acceptable with exactly the image in the destination
+				for _, terr := range []error{syscall.EAGAIN, syscall.EINTR, syscall.EIO} {
+					tw := &faults.TransientWriter{At: off, Err: terr}
+					var werr error
+					if perr := drive.Safe(func() error { _, werr = sb.WriteTo(tw); return nil }); perr != nil {
+						return violation(prop, "writeto/panic", "WriteTo with a writer failing once at offset %d of %d: %v", off, size, perr)
+					}
+					if werr == nil && tw.Failed() && !bytes.Equal(tw.Buf, data) {
+						return violation(prop, "writeto/transient-fault-swallowed", "WriteTo returned nil although one write failed (%v, short write at offset %d of %d) and the destination holds %d bytes that are not the image", terr, off, size, len(tw.Buf))
+					}
+				}
+			}
 			if c.Op == "writeto" {
 				w := &faults.FailingWriter{Limit: off}
 				var n int64
@@ -384,6 +399,30 @@ func runFaultCase(c faultCase) *Violation {
 		bad := filepath.Join(drive.ScratchDir(), "no-such-dir", "m.zap")
 		if _, _, err := drive.Merge(segs, drops, bad, root.ChunkMode, nil, nil); err == nil {
 			return violation(prop, "merge/uncreatable-path", "Merge to a path in a missing directory returned nil")
+		}
+		// the degenerate merge of no inputs: whatever it reports must be true of the path
+		pz := drive.NewPath("c17mz")
+		var sizeZ uint64
+		zerr := drive.Safe(func() error {
+			var e error
+			_, sizeZ, e = drive.Merge(nil, nil, pz, root.ChunkMode, nil, nil)
+			return e
+		})
+		dz, rerr := os.ReadFile(pz)
+		os.Remove(pz)
+		if zerr == nil {
+			if rerr != nil {
+				return violation(prop, "merge/success-without-file", "Merge of an empty input list returned nil but there is no file: %v", rerr)
+			}
+			if uint64(len(dz)) != sizeZ {
+				return violation(prop, "nofault/size", "Merge of an empty input list reported %d bytes, file has %d", sizeZ, len(dz))
+			}
+			if v := checkFooter(prop, dz, 0, effMode(root.ChunkMode)); v != nil {
+				v.Signature = "nofault/empty-merge-" + v.Signature
+				return v
+			}
+		} else if rerr == nil {
+			return violation(prop, "merge/file-left-behind", "Merge of an empty input list failed (%v) but left a file at the path", zerr)
 		}
 		// the same merge once more, fault-free, right after all the failed ones: whatever the
 		// failures left behind in the process must not show in a merge that reports success
